@@ -105,7 +105,12 @@ def hv_truth(prog: Program, floor: int = 1) -> RuleResult:
                         opres.add(x.target.id)
                     if hv_stream(x.iter):
                         hv.add(x.target.id)
+                if isinstance(x, (ast.For, ast.comprehension)) and isinstance(x.target, ast.Tuple) and len(x.target.elts) == 2 and isinstance(x.target.elts[1], ast.Name) \
+                        and isinstance(x.iter, ast.Call) and isinstance(x.iter.func, ast.Attribute) and x.iter.func.attr == "items" and isinstance(x.iter.func.value, ast.Name) and x.iter.func.value.id in hvdict:
+                    hv.add(x.target.elts[1].id)
                 if isinstance(x, ast.Assign) and len(x.targets) == 1 and isinstance(x.targets[0], ast.Name):
+                    if isinstance(x.value, ast.DictComp) and is_hv(x.value.value):
+                        hvdict.add(x.targets[0].id)
                     if is_hv(x.value):
                         hv.add(x.targets[0].id)
                     if hv_stream(x.value):
